@@ -2317,6 +2317,11 @@ def run_inits(ck, q):
                 mism += 1
                 if mism <= 3:
                     ck.broken("correspondence", "C10 InitTable.emit vs graph.initializer of the built model", bad)
+    if LI.ORDER_NOTES:
+        ck.notes.append(f"graph.initializer order differs from the model's (arguments first, then visiting order) in {len(LI.ORDER_NOTES)} programs; "
+                        "compared by name (the order is not part of the property; `initializers_emitted_exact`'s order clause then does not describe this tree)")
+        dist["order_differs"] = len(LI.ORDER_NOTES)
+        LI.ORDER_NOTES.clear()
     dist["mismatches"] = mism
     dist["compared_programs"] = len(reqs)
     ck.cov["initializer_table"] = dist
